@@ -168,25 +168,29 @@ pub fn poly_case(cx: &mut Ctx, n: u64, case: &Value) {
     }
     if cx.wants("C06") {
         let (wx, wy) = (rat(&case["cx"]), rat(&case["cy"]));
+        let extent0 = ext.0.iter().fold(1f64, |a, c| a.max(c.x.abs()).max(c.y.abs()));
         for (ei, e) in [ext.clone(), rev(&ext), rot(&ext, 2)].iter().enumerate() {
             for hv in 0..3 {
                 if (hv == 1 && holes.is_empty()) || (hv == 2 && holes.len() < 2) { continue; }
                 let hs: Vec<LineString<f64>> = holes.iter().enumerate().map(|(i, h)| match hv { 0 => h.clone(), 1 => rev(h), _ => if i % 2 == 0 { rev(h) } else { h.clone() } }).collect();
                 let p = Polygon::new(e.clone(), hs);
                 match guard(|| p.centroid()) {
-                    Ok(Some(c)) if (c.x() - wx).abs() <= 1e-9 * 8.0 && (c.y() - wy).abs() <= 1e-9 * 8.0 => cx.ok("polygon_centroid"),
+                    Ok(Some(c)) if (c.x() - wx).abs() <= 1e-9 * extent0.max(8.0) && (c.y() - wy).abs() <= 1e-9 * extent0.max(8.0) => cx.ok("polygon_centroid"),
                     other => cx.bad("C06", "polygon_centroid", case, json!({"what": format!("shell variant {ei}, hole variant {hv}"), "got": format!("{other:?}"), "want": [wx, wy]})),
                 }
             }
         }
         let p0 = Polygon::new(ext.clone(), holes.clone());
+        // the property promises equivariance under translation and uniform scaling (similarity maps), not under shears
+        let sims: Vec<&crate::gj::ExactMap> = maps.iter().filter(|m| m.similarity().is_some()).collect();
+        let extent = ext.0.iter().fold(1f64, |a, c| a.max(c.x.abs()).max(c.y.abs()));
         for k in 0..3usize {
-            let m = &maps[(n as usize + cx.seed as usize + 5 * k) % maps.len()];
+            let m = sims[(n as usize + cx.seed as usize + 5 * k) % sims.len()];
             let tp = m.on(&G::Polygon(p0.clone()));
             let want = m.apply(Coord { x: wx, y: wy });
             let maxc = match &tp { G::Polygon(p) => p.exterior().0.iter().fold(0f64, |a, c| a.max(c.x.abs()).max(c.y.abs())), _ => 1.0 };
             let scale = m.m[0].abs().max(m.m[1].abs()).max(m.m[3].abs()).max(m.m[4].abs());
-            let tol = 8.0 * ulp(maxc) + 1e-9 * 8.0 * scale;
+            let tol = 8.0 * ulp(maxc) + 1e-9 * extent.max(8.0) * scale;
             match guard(|| tp.geometry().centroid()) {
                 Ok(Some(c)) if (c.x() - want.x).abs() <= tol && (c.y() - want.y).abs() <= tol => cx.ok("polygon_centroid_exact_map"),
                 other => cx.bad("C06", "polygon_centroid_exact_map", case, json!({"what": format!("map {}", m.name), "got": format!("{other:?}"), "want": [want.x, want.y], "tol": tol})),
